@@ -179,6 +179,10 @@ Definition storage_shapes_pinned : bool := gs_shape && gi_shape && cp_shape && s
 Definition copy_statements_pinned : bool :=
   fx_gen_shape && scrdata_shape && unblind_shape && sigflux_shape && ctor_dfra_forces_copy.
 
+(* helper functions the property leans on: azi_to_ra_transform wraps twice (the premise of C07_time_ra_in_range),
+   RandomChoice neither writes into the probability array it is given nor into its items *)
+Definition helper_bodies_pinned : bool := azi2ra_shape && randchoice_init_shape && randchoice_call_shape.
+
 (* DataFieldRecordArray(self, keep_fields=keep): every kept column is copied *)
 Definition t_copy (t : tloc) (keep : option (list fid)) : M tloc :=
   mdo x <-- rdtab t ;;
@@ -633,8 +637,14 @@ Definition step (o : op) (w : world) : world * res unit :=
       match getroot (w_tdm w) i with
       | None => (w, Err AttributeError)
       | Some t =>
-          if nth i (w_ready w) false then on_store w (set_fields t l) (fun w' _ => w')
-          else (w, Err TypeError)          (* half initialised trial data: no source-event index table *)
+          (* the global-fit-parameter data fields are calculated first; without the source-event index table
+             (half initialised trial data) the PDF evaluation then raises *)
+          let r := on_store w (set_fields t l) (fun w' _ => w') in
+          if nth i (w_ready w) false then r
+          else match r with
+               | (w1, Ok _) => (w1, Err TypeError)
+               | (w1, Err e) => (w1, Err e)
+               end
       end
   | UnblindCopy i =>
       match nth_error (w_exp w) i with
